@@ -143,13 +143,12 @@ theorem passSound_lr (s : Stage) (h : s.kind = Kind.lr) : PassSound s := by
   · simp [h0] at hp; split at hp <;> omega
   · simp [h0] at hp; split at hp <;> omega
 
-/-- CDEF: the counter is unsigned and starts at 0, which is also the value stored after column 0; the test is
-    sound exactly when the row has at least two columns -/
-theorem passSound_cdef (s : Stage) (h : s.kind = Kind.cdef) (hW : 2 ≤ s.W) : PassSound s := by
+/-- CDEF (after commit c7d082d): the unsigned counter holds the number of finished columns -/
+theorem passSound_cdef (s : Stage) (h : s.kind = Kind.cdef) : PassSound s := by
   intro j d hj hd hp
   simp only [pass, h, enc, initCtr, pubVal, nsync] at hp
   by_cases h0 : d = 0
-  · simp [h0] at hp; omega
+  · simp [h0] at hp
   · simp [h0] at hp; first | omega | (split at hp <;> omega)
 
 theorem passLive_all (s : Stage) : PassLive s := by
@@ -160,10 +159,6 @@ theorem passLive_all (s : Stage) : PassLive s := by
   · simp; omega
   · simp; split <;> omega
   · simp; split <;> omega
-
-/-- the W = 1 corner of CDEF: with nothing done in the previous row the spin is left at once -/
-theorem cdef_w1_pass (s : Stage) (h : s.kind = Kind.cdef) (hW : s.W = 1) : pass s 0 (enc s 0) = true := by
-  simp [pass, h, enc, initCtr, nsync, hW]
 
 /-! ## reachability -/
 
